@@ -12,6 +12,7 @@ PAIRS = [
     (("contracts/common_api_assumed.inc", "Method", "as_str"), ("contracts/u_parse.rs.tpl", "Method", "as_str")),
     (("contracts/u_newreq.rs.tpl", "EqualReader<R>", "new"), ("contracts/u_readers.rs.tpl", "EqualReader<R>", "new")),
     (("contracts/u_newreq.rs.tpl", "FusedReader<R>", "new"), ("contracts/u_readers.rs.tpl", "FusedReader<R>", "new")),
+    (("contracts/u_resp.rs.tpl", "Header", "from_bytes"), ("contracts/u_parse.rs.tpl", "Header", "from_bytes")),
     (("contracts/u_task.rs.tpl", "MessagesQueue<T>", "push"), ("contracts/u_queue.rs.tpl", "MessagesQueue<T>", "push")),
     (("contracts/u_resp.rs.tpl", None, "choose_transfer_encoding"), ("contracts/u_cte.rs.tpl", None, "choose_transfer_encoding")),
     (("contracts/u_conn.rs.tpl", "Iterator for SequentialWriterBuilder<W>", "next"), ("contracts/u_seq.rs.tpl", "Iterator for SequentialWriterBuilder<W>", "next")),
